@@ -1,6 +1,8 @@
 /* Contracts for /repo/src/heap.c (C07, C15), with /repo/src/bintree.c and cstl_fls of /repo/src/common.c.
  *
- * P group  cstl_fls for all 2^64 inputs (DFCC contract, the 6-iteration loop closed by unwinding).
+ * P groups cstl_fls for all 2^64 inputs (DFCC contract, the 6-iteration loop closed by unwinding);
+ *          the index arithmetic of cstl_heap_find for every node number (FAILS on the pinned tree:
+ *          1 << 31 in signed int for numbers >= 2^31 - 1, see the report / g_heap.py).
  * S group  cstl_heap_promote_child on an explicit neighbourhood of distinct node objects (every
  *          combination of present/absent neighbours enumerated by concrete loops).
  * B groups the whole operations executed on concrete heaps; the reference model is the set of
@@ -24,6 +26,8 @@ ASSIGNS()
 #include "bintree.c"
 #include "heap.c"
 
+size_t vf_w_x, vf_w_id;      /* witnesses (inputs of the P harnesses), visible in the trace and to the native replay */
+
 struct vf_el { int key; int id; struct cstl_heap_node hn; int poisoned; };
 #define VF_POOL 8
 static struct vf_el vf_pool[VF_POOL];
@@ -45,10 +49,26 @@ static struct vf_el * vf_ptr[VF_POOL];
 #ifdef VF_FLS
 void h_fls(void)
 {
-    size_t vf_w_x; int r;
+    int r;
     VF_IN_SIZE(x);
     r = cstl_fls((unsigned long)vf_w_x);
     VF_ASSERT(vf_w_x == 0 ? r == -1 : (r >= 0 && r < 64 && ((unsigned long)vf_w_x >> r) == 1), "fls: index of the highest set bit, -1 for 0");
+    VF_END();
+}
+#endif
+
+/* ------------------------------------------------------------------ P: index arithmetic of cstl_heap_find */
+#ifdef VF_FIND
+/* push looks up node (size-1)/2, pop node size-1; the lookup must be defined for every such number.
+ * With an empty tree the descent loop does not run, so only the arithmetic that turns the number into
+ * the bit mask (1 << cstl_fls(id + 1)) >> 1 is exercised -- for every id with id + 1 <= UINT_MAX. */
+void h_find(void)
+{
+    struct cstl_heap h;
+    VF_IN_SIZE(id);
+    VF_ASSUME(vf_w_id < UINT_MAX);
+    cstl_heap_init(&h, NULL, NULL, 0);
+    VF_ASSERT(cstl_heap_find(&h, (unsigned int)vf_w_id) == NULL, "find: nothing is found in an empty tree, whatever the number");
     VF_END();
 }
 #endif
@@ -412,6 +432,8 @@ struct vf_harness { const char * name; void (*fn)(void); };
 struct vf_harness vf_harnesses[] = {
 #if defined(VF_FLS)
     { "h_fls", h_fls },
+#elif defined(VF_FIND)
+    { "h_find", h_find },
 #elif defined(VF_STEP)
     { "h_step", h_step },
 #elif defined(VF_B) && VF_B == 1
